@@ -323,6 +323,7 @@ fn oflags_libc(o: u16) -> i32 {
         (10, libc::O_CLOEXEC),
         (11, libc::O_NOATIME),
         (12, libc::O_SYNC),
+        (13, libc::O_TMPFILE),
     ];
     for (b, v) in tab {
         if o & (1 << b) != 0 {
@@ -350,6 +351,7 @@ fn oflags_rusl(o: u16) -> OpenFlags {
         (10, OpenFlags::O_CLOEXEC),
         (11, OpenFlags::O_NOATIME),
         (12, OpenFlags::O_SYNC),
+        (13, OpenFlags::O_TMPFILE),
     ];
     for (b, v) in tab {
         if o & (1 << b) != 0 {
@@ -503,6 +505,7 @@ pub struct Stats {
     pub failing: bool,
     pub short_rw: bool,
     pub newfd: bool,
+    pub tmpfile: bool,
     pub multi_lane: bool,
     pub fixed_file: bool,
     pub fixed_buf: bool,
@@ -1198,6 +1201,11 @@ impl Engine {
             match (fd_a, fd_b) {
                 (Some(a), Some(b)) => {
                     self.stats.newfd = true;
+                    if let Op::Openat { o, .. } = &e.op {
+                        if o & (1 << 13) != 0 {
+                            self.stats.tmpfile = true;
+                        }
+                    }
                     let ia = sys::fd_info(a, &self.a.prefix);
                     let ib = sys::fd_info(b, &self.b.prefix);
                     if ia != ib && result.is_ok() {
@@ -1373,6 +1381,15 @@ fn lens() -> impl Strategy<Value = Vec<u16>> {
 }
 
 fn oflags() -> impl Strategy<Value = u16> {
+    prop_oneof![
+        10 => oflags_mixed(),
+        // an unnamed temporary file in a directory: O_TMPFILE with a writable access mode (the
+        // kernel applies the mode argument here as it does for O_CREAT), sometimes with O_EXCL
+        1 => (1u16..3, any::<bool>()).prop_map(|(acc, excl)| acc | (1 << 13) | if excl { 1 << 3 } else { 0 }),
+    ]
+}
+
+fn oflags_mixed() -> impl Strategy<Value = u16> {
     (0u16..3, any::<u16>(), any::<u16>()).prop_map(|(acc, r1, r2)| {
         // each optional flag with probability 1/4, CREAT 1/2
         let mut o = acc | (r1 & r2 & 0x1ff8);
@@ -1476,6 +1493,7 @@ pub fn run_case(ctx: &Ctx, case: &FsCase) -> CaseResult {
     rep.class_if(st.failing, "failing-entry");
     rep.class_if(st.short_rw, "short-transfer");
     rep.class_if(st.newfd, "descriptor-result");
+    rep.class_if(st.tmpfile, "openat-unnamed-temporary-file-created");
     rep.class_if(st.multi_lane, "independent-chains");
     rep.class_if(st.fixed_file, "registered-file");
     rep.class_if(st.fixed_buf, "registered-buffer");
